@@ -43,7 +43,7 @@ func (ex *Exec) cutLoop(li *loopInfo, st *State) {
 			label = fmt.Sprintf("%d", i+1)
 		}
 		o := vc.oblige("inv-init", fmt.Sprintf("inv-init:%s/loop%d#%s", ex.conName(), li.ordinal, label), st.guard, t, ex.pos(li.header.Instrs[0].Pos()))
-		o.Note = inv.Src
+		o.SetNote(inv.Src)
 	}
 	// havoc
 	ms := ex.loopModified(li)
@@ -184,7 +184,7 @@ func (ex *Exec) closeLoop(li *loopInfo, st *State, g T) {
 			label = fmt.Sprintf("%d", i+1)
 		}
 		o := vc.oblige("inv-pres", fmt.Sprintf("inv-pres:%s/loop%d#%s", ex.conName(), li.ordinal, label), g, t, ex.pos(token.NoPos))
-		o.Note = inv.Src
+		o.SetNote(inv.Src)
 	}
 	for _, h := range li.frameHeaps {
 		srt := ex.heapR.sorts[h]
